@@ -477,6 +477,10 @@ func allowByTier() func(parent explore.Job, point int, label string, cost int) b
 const quickFrom = 2
 
 func TestC10(t *testing.T) {
+	if explore.IsWorker() {
+		serveWorker(t, plans)
+		return
+	}
 	nrun.Main(t, &nrun.Check{
 		ID: "C10", TestName: "TestC10", Plans: plans,
 		QuickTime: 110 * time.Second, ThorTime: 18 * time.Minute,
